@@ -39,3 +39,15 @@ check('C11', 'exploration',
       'All actuator lists of length 0-2 (3 in thorough, plus lists of 10) over joint x kind x ctrl-limited x force-limited on 4 base models (incl. free root before the actuated joints, stacked joints, two roots) x 4 states x full ctrl grid containing the range bounds exactly; compared with MuJoCo qfrc_actuator; exact zero on un-actuated dofs, monotone along each control, constant outside the control range.',
       'MuJoCo actuator model is the reference; piecewise-linear dependence with breakpoints in or bracketed by the grid.',
       'bounded exhaustive enumeration of actuator lists x ctrl grid, reference-engine oracle', 'DESIGN.md 4/C11')
+check('C01', 'exploration',
+      'Small-scope enumeration of kinematic forests (full product of joint kind x axis alphabet x body pose x anchor x geom for one link; reduced template alphabet for 2 links; every shape x link-type string for 3 links; larger in thorough) x tensor grid of 3 angles per hinge / 2 values per slide / root poses incl. the 24 cube rotations x qd basis, compared with MuJoCo xpos/xmat/object velocities of the model compiled from the same fused XML.',
+      'MuJoCo is the reference. FK is multi-affine in (cos q, sin q) per hinge and affine per slide, velocity linear in qd: the grids are determining sets for each enumerated model. Velocities outside the claimed class are a listed known finding.',
+      'small-scope exhaustive model enumeration x determining input grids, reference-engine oracle', 'DESIGN.md 4/C01')
+check('C02', 'exploration',
+      'C01 model scope with passive-force letters, actuator pairs and generic gravity dealt over the models (exact mass-matrix inverse): mass matrix on hinge(5) x slide(3) grids (symmetry, Cholesky, equality with mj_fullM), bias on q-grid x quadratic determining set of qd, passive/actuator/smooth forces on a ctrl grid incl. range bounds, 1 and 5 contact-free steps vs mj_step.',
+      'MuJoCo 3.13 is the reference. Terms are (trigonometric) polynomials of the stated degree: grids are determining sets per model; the step is a grid claim. Steps where MuJoCo itself reports instability are counted, not compared.',
+      'small-scope exhaustive model enumeration x determining input grids, reference-engine oracle', 'DESIGN.md 4/C02')
+check('C04', 'model_checking',
+      'Every node of the action-word tree ({-1,0,+1}^min(nu,2) letters held h steps, depth L, 4 initial states) of every free-rooted model skeleton (<= 3 links) and 4 two-body collision scenes in the spring and positional pipelines: momentum balance after every physics step; rest case on a tensor grid of |q|<=1 for all three pipelines.',
+      'Momentum read from xd_i (COM velocities); tolerance is the round-off scale of the sum. Rest failures of mixed hinge/slide stacks other than S..SH in spring/positional are a listed known finding.',
+      'exhaustive expansion of the control-word tree on the real step function, invariant checked at every state', 'DESIGN.md 4/C04')
